@@ -65,6 +65,25 @@ def determinism(n=200, only=None, quiet=False, processes=True):
             c = json.loads(p.stdout.strip().splitlines()[-1])
             bad += [k for k in a if a[k] != c.get(k)]
             n_cmp += len(a)
+    # worker-count independence: the same batch under 1, 3 and 16 workers gives the same runs
+    if processes:
+        os.environ['PHYLIB_VERIF_COLLECT_DIGESTS'] = '1'
+        try:
+            for prop in [p for p in ('C10', 'C03', 'C19', 'C13') if p in props]:
+                engine_name = engines.PROPS[prop]['engine']
+                ref = None
+                for w in ('1', '3', '16'):
+                    os.environ['VERIF_WORKERS'] = w
+                    b = core.run_batch(engine_name, prop, 'quick', 0, n_runs=120, resample=0)
+                    d = sorted(b.digests)
+                    n_cmp += len(d)
+                    if ref is None:
+                        ref = d
+                    elif d != ref:
+                        bad.append('%s/workers=%s' % (prop, w))
+        finally:
+            os.environ.pop('PHYLIB_VERIF_COLLECT_DIGESTS', None)
+            os.environ.pop('VERIF_WORKERS', None)
     if not quiet or bad or harness:
         print('determinism: props=%s runs/prop=%d comparisons=%d divergences=%d harness_errors=%d'
               % (','.join(props), per, n_cmp, len(bad), len(harness)))
